@@ -61,6 +61,20 @@ def check(ctx):
     for k in ("NewPage", "FetchPage", "WriteUnpin", "UnpinClean", "FlushPage", "DeallocNoWait", "LazyDeallocUnpin"):
         if c[k] == 0 or tot[k] == 0:
             raise Inconclusive("vacuous: no %s events" % k)
+    # "by any number of users": goroutines share one small pool (one frame more than users ... three more), every page
+    # owned by one goroutine; the merged history is judged by TLC (BufferPoolHistoryTrace)
+    import collections as _c
+    conc = _c.Counter()
+    for procs in (4, 16):
+        h = os.path.join(ctx.work, "bpmconc-p%d.ndjson" % procs)
+        vlib.vdrive(ctx, ["bpm", "conc", h, 30 if thorough else 6, 4 if procs == 4 else 8, 300, procs], timeout=1800, ok_codes=(0, 3),
+                    env={"VERIF_SEED": str(ctx.seed * 29 + procs)})
+        hres = vlib.validate(ctx, FAM, "BufferPoolHistoryTrace", "History.cfg", h, name="val-bpmconc-p%d" % procs, timeout=1800)
+        judge(ctx, hres, h, "concurrent users of one pool (GOMAXPROCS=%d)" % procs)
+        conc.update(count_events(h))
+    for k in ("Fetch", "Reread", "Write", "NewRet", "DeallocInv", "Flush"):
+        if conc[k] == 0:
+            raise Inconclusive("vacuous: no %s events in the concurrent windows" % k)
     vlib.write_evidence(ctx, "model_checking", dict(
         states=ctx.states, transitions=ctx.transitions, traces_validated_against_impl=ctx.traces,
         samples=ctx.samples, exhaustive=True,
